@@ -116,15 +116,15 @@ WIN_HANDLE_CLASSES = {
             "win-parent-wrong-std-id", "win-parent-wrong-handle", "win-parent-missing-not-reported", "win-file-redirect-failed",
             "win-file-wrong-direction", "win-file-wrong-name", "win-file-disposition", "win-file-handle"),
     "C11": ("win-handle-list-not-in-force", "win-handle-list-missing", "win-handle-list-foreign", "win-foreign-handle-made-inheritable",
-            "win-file-inheritable"),
-    "C05": ("win-closes-callers-handle", "win-thread-handle", "win-fault-leak", "win-start-leak"),
+            "win-file-inheritable", "win-process-created-without-handle-list"),
+    "C05": ("win-closes-callers-handle", "win-thread-handle", "win-fault-leak", "win-start-leak", "win-destroy-closes"),
     "C04": ("win-fault-wrong-error", "win-fault-handle-set", "win-fault-process-created"),
     # src/win.c --life: wait / terminate / kill / pid of process.windows.c at the Win32 boundary
     "C01": ("win-wait-status",),
     "C06": ("win-wait-target", "win-terminate-target", "win-kill-target", "win-pid"),
     "C07": ("win-terminate-target", "win-kill-target"),
 }
-WIN_MODE = {"C10": ["--handles", "--redirect"], "C11": ["--handles", "--redirect"], "C05": ["--handles"], "C04": ["--handles"],
+WIN_MODE = {"C10": ["--handles", "--redirect"], "C11": ["--handles", "--redirect"], "C05": ["--handles", "--life"], "C04": ["--handles"],
             "C01": ["--life"], "C06": ["--life"], "C07": ["--life"]}
 
 
